@@ -17,6 +17,11 @@ behind `key in context -> KeyError`, D14 the template: processor renders with th
 parameters (extraction side and rendering side of factory.py agree: string.Formatter on both), filling each field with
 the value resolved under its name, D15 the logarithm that computes the exponents of a numpy.logspace range on the node
 path is the one of logspace's base (log-scaled parameter sweeps hand the processor lo..hi).
+D16 the processor entry points a node spreads the resolved parameters into (process / operate_context and generated
+overrides, found as the methods of that name in the processor family) bind by name only what the node passes explicitly
+and hand their ** mapping on unchanged (a new `index=None` keyword would swallow a context key called `index`),
+D17 a generated wrapper processor forwards to the wrapped element every collection of names it advertises on the
+element's behalf (name-set algebra over the factory's collections: advertised atoms vs. atoms the selection draws from).
 The D1 first-match chain is decided from the truth table of the guards (sa/props/_chains.py) of the resolver's
 normal form (`match` lowered, split-off helpers absorbed), not from the textual order of the `if` statements.
 Anchors are found by role, not by name: the functions that resolve a node's parameters (fetcher / mapping builder,
@@ -1074,7 +1079,11 @@ def run(repo: Repo, R: Report) -> None:
     opn = nfunc(repo, CPROC, "ContextProcessor.operate_context")
     gg = CFG(opn)  # with exception edges: the reset has to happen when the processor fails, too
     op_self = opn.args.args[0].arg if opn.args.args else "self"
-    logic = [n.id for n in gg.nodes if n.ast is not None and n.kind == "stmt" and any(call_attr(c) == "_process_logic" for c in calls_in(n.ast))]
+    # the statement through which the processor's logic runs: the `_process_logic` call, or (the call moved into a helper
+    # of another module) the statement that hands the resolved-parameter mapping on
+    op_kw = opn.args.kwarg.arg if opn.args.kwarg is not None else None
+    runs_logic = _hands_on_predicate(repo, repo.module(CPROC), gg, op_kw) if op_kw else (lambda n: False)
+    logic = [n.id for n in gg.nodes if n.ast is not None and n.kind == "stmt" and (any(call_attr(c) == "_process_logic" for c in calls_in(n.ast)) or runs_logic(n))]
 
     def is_reset(n) -> bool:
         """`self._context_observer = None` (the helper that does it is inlined by the normal form)"""
@@ -1313,6 +1322,8 @@ def run(repo: Repo, R: Report) -> None:
     _rule_payload_source_merge(repo, R, nmod)
     _rule_template_rendering(repo, R)
     _rule_log_ranges(repo, R)
+    _rule_entry_points_pass_names(repo, R, nmod)
+    _rule_wrappers_forward_advertised(repo, R)
 
 
 # ---------------------------------------------------------------------- D9
@@ -2220,3 +2231,527 @@ def _rule_log_ranges(repo: Repo, R: Report) -> None:
         if not geo:
             raise AnalysisError("no numpy.logspace / numpy.geomspace call on the node path (2 logspace calls in _materialize_sequences confirmed by reading)")
         R.ok(r, geo[0], "<module>", "log ranges are built by geomspace(lo, hi, ..): no exponents to agree on")
+
+
+# ---------------------------------------------------------------------- D16
+NAMES_API = "get_processing_parameter_names"
+
+
+def _processor_entry_layers(repo: Repo, meth: str) -> List[Tuple[object, str, ast.AST]]:
+    """Every definition of the processor entry point *meth* (what a node body calls on `<node>.processor` with the resolved
+    parameters spread into it): a method of that name in a class of the processor family - a class whose MRO declares the
+    parameter-name interface the resolution iterates over, or a generated class deriving from a processor class that is a
+    parameter of the enclosing factory (dynamic base) and extending the entry point through `super().<meth>(..)`."""
+    out: List[Tuple[object, str, ast.AST]] = []
+    for mod, qn, C in repo.all_classes():
+        fns = [st for st in C.body if isinstance(st, FuncNode) and st.name == meth]
+        if not fns:
+            continue
+        family = repo.method(mod, C, NAMES_API) is not None
+        if not family:
+            outer: Set[str] = set()
+            for a in ancestors(C):
+                if isinstance(a, FuncNode):
+                    outer |= _fn_params(a)
+            dynamic = any(isinstance(b, ast.Name) and b.id in outer for b in C.bases)
+            family = dynamic and any(isinstance(c.func, ast.Attribute) and c.func.attr == meth and isinstance(c.func.value, ast.Call) and call_attr(c.func.value) == "super" for f in fns for c in calls_in(f))
+        if family:
+            out += [(mod, f"{qn}.{meth}", f) for f in fns]
+    return out
+
+
+def _rule_entry_points_pass_names(repo: Repo, R: Report, nmod) -> None:
+    """Interface between a node body and the processor base classes: the node spreads the mapping {parameter name: resolved
+    value} into the entry point (`process(data, **parameters)`, `operate_context(context=.., context_observer=..,
+    **parameters)`); parameter names are chosen by the processor author / for the generated rename:/delete:/template:
+    processors by the pipeline author (they are context keys).  Every name has to come out at `_process_logic` again."""
+    r = R.rule("C01-D16-resolved-parameters-pass-the-entry-point-under-their-own-name", "the processor entry points a node calls with the resolved parameters spread into them (process / operate_context and every generated override) bind by name only what the node passes explicitly, collect everything else in their ** mapping and hand that mapping on unchanged: a named parameter of the entry point that the node does not pass (e.g. `index=None`) captures a processing parameter - for rename:/delete:/template: a context key - of that name, which then never reaches _process_logic", 2)
+    sites: Dict[str, List[Tuple[str, ast.Call]]] = {}
+    for qn, _f0 in _node_bodies(nmod):
+        f = _nf(repo, NODES, qn)
+        if not f.args.args:
+            continue
+        sp = f.args.args[0].arg
+        for c in calls_in(f):
+            if isinstance(c.func, ast.Attribute) and dotted_name(c.func.value) == f"{sp}.processor" and any(k.arg is None for k in c.keywords):
+                sites.setdefault(c.func.attr, []).append((qn, c))
+    if not sites:
+        raise AnalysisError("nodes.py: no node body spreads resolved parameters into a processor entry point (6 confirmed by reading)")
+    for meth in sorted(sites):
+        layers = _processor_entry_layers(repo, meth)
+        if not layers:
+            raise AnalysisError(f"no definition of the processor entry point `{meth}` found in the processor family")
+        for mod, qn, F0 in layers:
+            repo.module(mod.rel)
+            try:
+                F = nfunc(repo, mod.rel, qn)
+            except Exception:
+                F = F0
+            g = CFG(F, may_raise=_no_raise)
+            a = F.args
+            deco = [dotted_name(d) for d in getattr(F, "decorator_list", [])]
+            pos = [x.arg for x in list(a.posonlyargs) + list(a.args)]
+            if "staticmethod" not in deco:
+                pos = pos[1:]
+            posonly = {x.arg for x in a.posonlyargs}
+            kwonly = [x.arg for x in a.kwonlyargs]
+            # (a) names the entry point binds itself although some node call does not pass them
+            captured: List[Tuple[str, str, ast.Call]] = []
+            for nqn, c in sites[meth]:
+                if any(isinstance(x, ast.Starred) for x in c.args):
+                    continue
+                passed = set(pos[:len(c.args)]) | {k.arg for k in c.keywords if k.arg is not None}
+                captured += [(p, nqn, c) for p in pos[len(c.args):] + kwonly if p not in passed and p not in posonly]
+            kw = a.kwarg.arg if a.kwarg is not None else None
+            if captured:
+                p, nqn, c = captured[0]
+                R.violation(r, mod.rel, qn, f"def {F0.name}({ast.unparse(a)[:90]})", f"parameter `{p}` of the entry point is not passed by `{norm(c)[:70]}` ({nqn}): a resolved processing parameter called `{p}` (for the generated rename:/delete:/template: processors any context key of that name) is bound to it instead of landing in the ** mapping, so the processor's logic never receives it - the key is not renamed / deleted / substituted although it is present", F0.lineno)
+                continue
+            if kw is None:
+                R.violation(r, mod.rel, qn, f"def {F0.name}({ast.unparse(a)[:90]})", "the entry point has no ** mapping: the resolved parameters a node spreads into it cannot reach the processor's logic", F0.lineno)
+                continue
+            # (b) the mapping is handed on as it came in, on every normally-returning path
+            ok, why, path = _mapping_handed_on(repo, mod, F, kw)
+            R.check(ok, r, mod.rel, qn, f"{F0.name}(<what the node passes>, **{kw}) -> <logic>(.., **{kw})", f"the resolved parameters do not reach the processor's logic as resolved: {why}", F0.lineno, path)
+
+
+def _mapping_handed_on(repo: Repo, mod, F: ast.AST, pname: str, depth: int = 0) -> Tuple[bool, str, Optional[List[str]]]:
+    """Every normally-returning path of *F* (a normal form) hands the mapping held by parameter *pname* on as it came in:
+    spread into a call (`g(.., **pname)`), or passed whole to a function of the package that in turn hands it on (a helper
+    in this or another module); nothing in *F* adds to / removes from / rebinds it first."""
+    muts = mutation_sites(F, {pname})
+    if muts:
+        return False, f"`{norm(stmt_of(muts[0][0]))[:60]}` changes the mapping before it is handed on", None
+    g = CFG(F, may_raise=_no_raise)
+    is_fwd = _hands_on_predicate(repo, mod, g, pname, depth)
+
+    def covers(n) -> bool:
+        if is_fwd(n):
+            return True
+        return n.kind == "for" and any(is_fwd(m) for m in g.nodes if m.ast is not None and any(x is n.ast for x in ancestors(m.ast)))
+
+    comp_fwd = any(k.arg is None and isinstance(k.value, ast.Name) and k.value.id == pname for cp in walk_no_nested(F) if isinstance(cp, (ast.ListComp, ast.GeneratorExp)) for c in ast.walk(cp.elt) if isinstance(c, ast.Call) for k in c.keywords)
+    if comp_fwd:
+        return True, "", None
+    miss = g.must_pass([g.entry], [g.ret_exit], covers)
+    if not any(is_fwd(n) for n in g.nodes) or miss:
+        return False, "a path returns without handing the ** mapping on", (miss[0][1] if miss else None)
+    return True, "", None
+
+
+def _hands_on_predicate(repo: Repo, mod, g: CFG, pname: str, depth: int = 0):
+    """`is_fwd(cfg node)`: the statement spreads the mapping parameter *pname* of g.func into a call, or passes it whole to
+    a package function that hands it on."""
+    memo: Dict[int, bool] = {}
+
+    def whole(c: ast.Call, use: int) -> bool:
+        """*c* passes the mapping as one argument to a package function that hands it on"""
+        vals = [a_ for a_ in c.args if not isinstance(a_, ast.Starred)] + [k.value for k in c.keywords if k.arg is not None]
+        if depth >= 3 or not any(isinstance(v, ast.Name) and _is_param(g, v, use, pname) for v in vals):
+            return False
+        try:
+            tg = repo.resolve_call(mod, c)
+        except Exception:
+            tg = []
+        if not tg:
+            return False
+        for tm, G0 in tg:
+            if not isinstance(G0, FuncNode):
+                return False
+            b = _callee_binding(tm, c, G0)
+            q = next((p_ for p_, v in (b or {}).items() if isinstance(v, ast.Name) and _is_param(g, v, use, pname)), None)
+            if q is None:
+                return False
+            try:
+                G = nfunc(repo, tm.rel, qualname_of(G0))
+            except Exception:
+                G = G0
+            if not _mapping_handed_on(repo, tm, G, q, depth + 1)[0]:
+                return False
+        return True
+
+    def is_fwd(n) -> bool:
+        if n.ast is None or n.kind != "stmt":
+            return False
+        if n.id not in memo:
+            memo[n.id] = any(any(k.arg is None and _is_param(g, k.value, n.id, pname) for k in c.keywords) or whole(c, n.id) for c in calls_in(n.ast))
+        return memo[n.id]
+
+    return is_fwd
+
+
+# ---------------------------------------------------------------------- D17
+# Name-set algebra for generated wrapper processors.  A wrapper class made by a factory function advertises processing
+# parameter names (what the node resolves) and, in its logic, selects from the resolved mapping what it hands to the
+# wrapped element.  Both sides are written in terms of the factory's name collections (closure variables, class
+# attributes assigned from them).  A collection that is built element by element (or by something that is not a
+# union / conversion of other collections) is an ATOM; everything else is evaluated to a union of atoms.
+_TOP = None  # "any name" / not followed
+_CONVERT = {"set", "list", "tuple", "sorted", "frozenset", "iter", "reversed"}
+_ELEMWISE = {"append", "add", "insert", "setdefault", "appendleft"}
+_BULK = {"extend", "update"}
+_SHRINK = {"pop", "popitem", "remove", "discard", "clear", "difference_update", "intersection_update"}
+
+
+class _NameSets:
+    def __init__(self, fac: ast.AST):
+        self.fac = fac
+        self.params = _fn_params(fac)
+        self.values: Dict[str, List[Optional[ast.AST]]] = {}
+        self.elem: Dict[str, List[ast.AST]] = {}
+        self.bulk: Dict[str, List[ast.AST]] = {}
+        self.dep1: Dict[str, Set[str]] = {}
+        self.inexact = False
+        self._busy: Set[str] = set()
+        for n in walk_no_nested(fac):
+            if isinstance(n, (ast.Assign, ast.AnnAssign)) and getattr(n, "value", None) is not None:
+                tgts = n.targets if isinstance(n, ast.Assign) else [n.target]
+                for t in tgts:
+                    for x in ast.walk(t):
+                        if isinstance(x, ast.Name) and isinstance(x.ctx, ast.Store):
+                            self.values.setdefault(x.id, []).append(_assigned_component(n, x.id))
+                            self.dep1.setdefault(x.id, set()).update(y.id for y in ast.walk(n.value) if isinstance(y, ast.Name))
+                    if isinstance(t, ast.Subscript) and isinstance(t.value, ast.Name):
+                        self.elem.setdefault(t.value.id, []).append(t.slice)
+                        self.dep1.setdefault(t.value.id, set()).update(y.id for y in ast.walk(n) if isinstance(y, ast.Name) and y is not t.value)
+            elif isinstance(n, ast.AugAssign) and isinstance(n.target, ast.Name):
+                self.bulk.setdefault(n.target.id, []).append(n.value)
+                self.dep1.setdefault(n.target.id, set()).update(y.id for y in ast.walk(n.value) if isinstance(y, ast.Name))
+            elif isinstance(n, (ast.For, ast.comprehension)):
+                for x in ast.walk(n.target):
+                    if isinstance(x, ast.Name):
+                        self.values.setdefault(x.id, []).append(None)
+                        self.dep1.setdefault(x.id, set()).update(y.id for y in ast.walk(n.iter) if isinstance(y, ast.Name))
+            elif isinstance(n, ast.Call) and isinstance(n.func, ast.Attribute) and isinstance(n.func.value, ast.Name):
+                v = n.func.value.id
+                if n.func.attr in _ELEMWISE:
+                    self.elem.setdefault(v, []).extend(n.args)
+                elif n.func.attr in _BULK:
+                    self.bulk.setdefault(v, []).extend(n.args)
+                else:
+                    continue
+                self.dep1.setdefault(v, set()).update(y.id for a_ in n.args for y in ast.walk(a_) if isinstance(y, ast.Name))
+        for cp in ast.walk(fac):
+            if isinstance(cp, (ast.ListComp, ast.SetComp, ast.DictComp, ast.GeneratorExp)) and enclosing_fn(cp) is fac:
+                for gen in cp.generators:
+                    for x in ast.walk(gen.target):
+                        if isinstance(x, ast.Name):
+                            self.dep1.setdefault(x.id, set()).update(y.id for y in ast.walk(gen.iter) if isinstance(y, ast.Name))
+
+    def is_local(self, name: str) -> bool:
+        return name in self.params or name in self.values or name in self.elem or name in self.bulk
+
+    def deps(self, name: str) -> Set[str]:
+        seen: Set[str] = set()
+        todo = [name]
+        while todo:
+            x = todo.pop()
+            for y in self.dep1.get(x, ()):
+                if y not in seen:
+                    seen.add(y)
+                    todo.append(y)
+        return seen
+
+    def var(self, name: str) -> Optional[frozenset]:
+        """Upper bound of the names collection variable *name* of the factory can hold, as a union of atoms."""
+        if not self.is_local(name):
+            return _TOP
+        if name in self._busy:
+            return frozenset()
+        self._busy.add(name)
+        try:
+            out: Set[str] = set()
+            own = name in self.params or bool(self.elem.get(name))
+            for v in self.values.get(name, []):
+                s = self.alg(v, self._leaf) if v is not None else _TOP
+                if s is _TOP:
+                    own = True
+                else:
+                    out |= s
+            for v in self.bulk.get(name, []):
+                s = self.alg(v, self._leaf)
+                if s is _TOP:
+                    own = True
+                else:
+                    out |= s
+            if own:
+                out.add(name)
+            return frozenset(out)
+        finally:
+            self._busy.discard(name)
+
+    def _leaf(self, e: ast.AST) -> Optional[frozenset]:
+        return self.var(e.id) if isinstance(e, ast.Name) else _TOP
+
+    def alg(self, e: ast.AST, leaf) -> Optional[frozenset]:
+        """Union-of-atoms value of a name-collection expression (names of a list / set / tuple, keys of a mapping);
+        _TOP when the expression is not a union / conversion / selection of collections *leaf* can resolve."""
+        if isinstance(e, (ast.Name, ast.Attribute)):
+            return leaf(e)
+        if isinstance(e, ast.NamedExpr):
+            return self.alg(e.value, leaf)
+        if isinstance(e, ast.IfExp):
+            return self._union([e.body, e.orelse], leaf)
+        if isinstance(e, ast.BoolOp) and isinstance(e.op, ast.Or):
+            return self._union(e.values, leaf)
+        if isinstance(e, (ast.List, ast.Tuple, ast.Set)):
+            out: Set[str] = set()
+            for x in e.elts:
+                if isinstance(x, ast.Starred):
+                    s = self.alg(x.value, leaf)
+                    if s is _TOP:
+                        return _TOP
+                    out |= s
+                elif isinstance(x, ast.Constant):
+                    out.add(repr(x.value))
+                else:
+                    return _TOP
+            return frozenset(out)
+        if isinstance(e, ast.Dict):
+            out = set()
+            for k, v in zip(e.keys, e.values):
+                if k is None:
+                    s = self.alg(v, leaf)
+                    if s is _TOP:
+                        return _TOP
+                    out |= s
+                elif isinstance(k, ast.Constant):
+                    out.add(repr(k.value))
+                else:
+                    return _TOP
+            return frozenset(out)
+        if isinstance(e, ast.BinOp):
+            if isinstance(e.op, (ast.BitOr, ast.Add)):
+                return self._union([e.left, e.right], leaf)
+            if isinstance(e.op, (ast.Sub, ast.BitAnd)):
+                self.inexact = True
+                return self.alg(e.left, leaf)
+            return _TOP
+        if isinstance(e, (ast.ListComp, ast.SetComp, ast.GeneratorExp, ast.DictComp)):
+            if len(e.generators) != 1 or e.generators[0].is_async:
+                return _TOP
+            gen = e.generators[0]
+            key = e.key if isinstance(e, ast.DictComp) else e.elt
+            if not isinstance(key, ast.Name):
+                return _TOP
+            src: Optional[ast.AST] = None
+            if isinstance(gen.target, ast.Name) and gen.target.id == key.id:
+                src = gen.iter
+            elif isinstance(gen.target, (ast.Tuple, ast.List)) and len(gen.target.elts) == 2 and isinstance(gen.target.elts[0], ast.Name) and gen.target.elts[0].id == key.id and isinstance(gen.iter, ast.Call) and isinstance(gen.iter.func, ast.Attribute) and gen.iter.func.attr == "items" and not gen.iter.args:
+                src = gen.iter.func.value
+            if src is None:
+                return _TOP
+            s = self.alg(src, leaf)
+            if gen.ifs:
+                self.inexact = True
+                if s is _TOP:
+                    # `for k in <anything> if k in A`: A bounds the result
+                    for t in gen.ifs:
+                        if isinstance(t, ast.Compare) and len(t.ops) == 1 and isinstance(t.ops[0], ast.In) and isinstance(t.left, ast.Name) and t.left.id == key.id:
+                            b = self.alg(t.comparators[0], leaf)
+                            if b is not _TOP:
+                                return b
+            return s
+        if isinstance(e, ast.Call):
+            fn = e.func
+            if isinstance(fn, ast.Name) and fn.id in _CONVERT and len(e.args) == 1:
+                return self.alg(e.args[0], leaf)
+            if isinstance(fn, ast.Name) and fn.id in _CONVERT | {"dict"} and not e.args and not e.keywords:
+                return frozenset()
+            if isinstance(fn, ast.Name) and fn.id == "dict":
+                out = set()
+                for a_ in e.args:
+                    s = self.alg(a_, leaf)
+                    if s is _TOP:
+                        return _TOP
+                    out |= s
+                for k in e.keywords:
+                    if k.arg is None:
+                        s = self.alg(k.value, leaf)
+                        if s is _TOP:
+                            return _TOP
+                        out |= s
+                    else:
+                        out.add(repr(k.arg))
+                return frozenset(out)
+            dn = dotted_name(fn) or ""
+            if dn in ("dict.fromkeys", "OrderedDict.fromkeys") and e.args:
+                return self.alg(e.args[0], leaf)
+            if dn in ("itertools.chain", "chain") and not e.keywords:
+                return self._union(list(e.args), leaf)
+            if isinstance(fn, ast.Attribute):
+                if fn.attr in ("keys", "copy") and not e.args and not e.keywords:
+                    return self.alg(fn.value, leaf)
+                if fn.attr == "union" and not e.keywords:
+                    return self._union([fn.value] + list(e.args), leaf)
+                if fn.attr in ("difference", "intersection") and not e.keywords:
+                    self.inexact = True
+                    return self.alg(fn.value, leaf)
+            return _TOP
+        return _TOP
+
+    def _union(self, parts: List[ast.AST], leaf) -> Optional[frozenset]:
+        out: Set[str] = set()
+        for p in parts:
+            s = self.alg(p, leaf)
+            if s is _TOP:
+                return _TOP
+            out |= s
+        return frozenset(out)
+
+
+def enclosing_fn(n: ast.AST) -> Optional[ast.AST]:
+    for a in ancestors(n):
+        if isinstance(a, FuncNode + (ast.Lambda,)):
+            return a
+    return None
+
+
+def _rule_wrappers_forward_advertised(repo: Repo, R: Report) -> None:
+    """Interface inside a generated wrapper processor (parameter sweeps): the names it advertises through the
+    parameter-name interface are what the node resolves with config > context > default; the wrapper's logic selects from
+    the resolved mapping what it hands to the wrapped element.  A name that is advertised on the element's behalf (taken
+    from the element's signature) but is in no collection the selection draws from is resolved and then dropped: the
+    element runs with its own default although the node configuration / the context supplies a value."""
+    r = R.rule("C01-D17-generated-wrappers-forward-what-they-advertise", "a generated wrapper processor (parameter sweep) hands the wrapped element every parameter it advertises on the element's behalf: each collection of names taken from the element's signature that feeds get_processing_parameter_names() also feeds the selection of the resolved values that are spread into the element's call; otherwise the node resolves the parameter (config > context > default) and the element silently falls back to its own default", 1)
+    for rel in _NODE_PATH_FILES:
+        if not repo.has_module(rel):
+            continue
+        mod = repo.module(rel)
+        for kqn, K in sorted((q, c) for q, c in mod.defs.items() if isinstance(c, ast.ClassDef)):
+            fac = enclosing_fn(K)
+            adv_fn = next((st for st in K.body if isinstance(st, FuncNode) and st.name == NAMES_API), None)
+            if fac is None or adv_fn is None:
+                continue
+            ns = _NameSets(fac)
+            cattrs: Dict[str, ast.AST] = {}
+            for st in K.body:
+                if isinstance(st, (ast.Assign, ast.AnnAssign)) and st.value is not None:
+                    for t in (st.targets if isinstance(st, ast.Assign) else [st.target]):
+                        if isinstance(t, ast.Name):
+                            cattrs[t.id] = st.value
+
+            def scope(F: ast.AST, g: CFG):
+                """(leaf resolver at a CFG node, holder-aware mapping keys) for method *F* of the wrapper"""
+                recv = F.args.args[0].arg if F.args.args else "self"
+                kw = F.args.kwarg.arg if F.args.kwarg is not None else None
+
+                def class_attr(e: ast.AST) -> Optional[str]:
+                    if isinstance(e, ast.Attribute):
+                        b = ast.unparse(e.value)
+                        if b in (recv, "cls", f"type({recv})", f"{recv}.__class__"):
+                            return e.attr
+                    return None
+
+                def keys(e: ast.AST, use: int, depth: int = 0) -> Optional[frozenset]:
+                    if depth > 14:
+                        return _TOP
+
+                    def leaf(x: ast.AST) -> Optional[frozenset]:
+                        ca = class_attr(x)
+                        if ca is not None:
+                            return ns.alg(cattrs[ca], ns._leaf) if ca in cattrs else _TOP
+                        if not isinstance(x, ast.Name):
+                            return _TOP
+                        bs = _bound_values(g, x.id, use)
+                        if bs is None:
+                            return _TOP
+                        if not bs:
+                            if x.id in _fn_params(F):
+                                return _TOP
+                            return ns.var(x.id)
+                        out: Set[str] = set()
+                        for v, d in bs:
+                            if isinstance(v, ast.Name) and v.id == x.id and d == g.entry:
+                                return _TOP  # a parameter (the resolved mapping itself: everything)
+                            s = keys(v, d, depth + 1)
+                            if s is _TOP:
+                                return _TOP
+                            out |= s
+                        for site, _root in mutation_sites(F, {x.id}):
+                            if isinstance(site, ast.Call) and isinstance(site.func, ast.Attribute):
+                                if site.func.attr in _SHRINK:
+                                    continue
+                                if site.func.attr == "update" and isinstance(site.func.value, ast.Name):
+                                    su = _node_of(g, site)
+                                    for a_ in site.args:
+                                        s = keys(a_, su if su is not None else use, depth + 1)
+                                        if s is _TOP:
+                                            return _TOP
+                                        out |= s
+                                    out |= {repr(k.arg) for k in site.keywords if k.arg is not None}
+                                    if any(k.arg is None for k in site.keywords):
+                                        return _TOP
+                                    continue
+                                return _TOP
+                            if isinstance(site, ast.Delete):
+                                continue
+                            tg = site.targets if isinstance(site, ast.Assign) else [getattr(site, "target", None)]
+                            if all(isinstance(t, ast.Subscript) and isinstance(t.slice, ast.Constant) for t in tg if isinstance(t, (ast.Subscript, ast.Attribute))):
+                                out |= {repr(t.slice.value) for t in tg if isinstance(t, ast.Subscript)}
+                                continue
+                            return _TOP
+                        return frozenset(out)
+
+                    return ns.alg(e, leaf)
+
+                return recv, kw, class_attr, keys
+
+            # what the wrapper advertises (exactly: unions and conversions only)
+            try:
+                A = nfunc(repo, rel, f"{kqn}.{NAMES_API}")
+            except Exception:
+                A = adv_fn
+            ga = CFG(A, may_raise=_no_raise)
+            _recv, _kw, _ca, akeys = scope(A, ga)
+            ns.inexact = False
+            adv: Optional[Set[str]] = set()
+            for n in ga.nodes:
+                if n.kind == "stmt" and isinstance(n.ast, ast.Return):
+                    s = akeys(n.ast.value, n.id) if n.ast.value is not None else _TOP
+                    if s is _TOP or adv is None:
+                        adv = None
+                    else:
+                        adv |= s
+            if not adv or ns.inexact:
+                continue  # names computed some other way (e.g. read off a signature at call time): nothing to compare
+            # where the wrapper's logic hands resolved values to the wrapped element
+            for L0 in [st for st in K.body if isinstance(st, FuncNode) and st.args.kwarg is not None]:
+                lqn = f"{kqn}.{L0.name}"
+                try:
+                    L = nfunc(repo, rel, lqn)
+                except Exception:
+                    L = L0
+                g = CFG(L, may_raise=_no_raise)
+                recv, kw, class_attr, keys = scope(L, g)
+                for c in calls_in(L):
+                    spreads = [k.value for k in c.keywords if k.arg is None]
+                    if not spreads or not isinstance(c.func, ast.Attribute):
+                        continue
+                    use = _node_of(g, c)
+                    if use is None:
+                        continue
+                    # the element: what the receiver of the call is made from (class attributes set from factory names)
+                    rv = _vals(g, c.func.value, use) or [(c.func.value, use)]
+                    attrs = {class_attr(x) for v, _u in rv for x in ast.walk(v)} - {None}
+                    elem_names = {y.id for a_ in attrs if a_ in cattrs for y in ast.walk(cattrs[a_]) if isinstance(y, ast.Name) and ns.is_local(y.id)}
+                    if not elem_names:
+                        continue  # not a call on the wrapped element (super().., self.., a helper)
+                    fwd: Optional[Set[str]] = set()
+                    for s_ in spreads:
+                        s = keys(s_, use)
+                        if s is _TOP or fwd is None:
+                            fwd = None
+                        else:
+                            fwd |= s
+                    if fwd is None:
+                        R.ok(r, rel, lqn, f"{norm(c)[:70]} (the whole resolved mapping / an unrestricted selection is handed on)")
+                        continue
+                    known = set(adv) | fwd
+                    missing = sorted(m for m in adv - fwd if ns.is_local(m) and (ns.deps(m) | {m}) & elem_names and not ((ns.deps(m) & known) - {m}))
+                    what = ""
+                    if missing:
+                        m = missing[0]
+                        sel = ", ".join(sorted(fwd)) or "nothing"
+                        what = f"the wrapper advertises the names in `{m}` (taken from the signature of `{'/'.join(sorted(elem_names))}`) as processing parameters, so the node resolves them with config > context > default, but the mapping spread into `{norm(c)[:50]}` is selected from {{{sel}}} only: a value the node configuration or the context supplies for such a parameter is dropped and the wrapped element runs with its own default"
+                    R.check(not missing, r, rel, lqn, f"{norm(c)[:60]}: advertised {{{', '.join(sorted(adv))}}} / forwarded {{{', '.join(sorted(fwd))}}}", what, c.lineno)
